@@ -15,6 +15,15 @@ TB_API = ("Trusted: TLC; the Python reference reader/projection (vf/refimpl.py, 
           "Exhaustive only for the small constants of the model configurations; the implementation side is "
           "sampled by seeded generators (VERIF_SEED).")
 
+FS = {"C03", "C04", "C07", "C13", "C15"}
+FS_T = ("TLC trace validation (spec/TraceFS.tla, SerialAPI.tla, TraceLayout.tla, reusing the contract Cacache.tla) of "
+        "system-call level executions of the real library driven by a ptrace lock-step tracer (kill / torn write / errno "
+        "injection / scheduling at every visible system call); TLC model checking of IndexFormat.tla / CacacheFS.tla")
+TB_FS = ("Trusted: TLC; the tracer sysched (ptrace) and its classification of visible calls; the Python reference "
+         "projection; the kernel's process-kill semantics as crash model (no power-loss reordering). Crash, fault and "
+         "schedule positions are enumerated exhaustively for the listed operations; torn lengths exhaustively where "
+         "stated; data values and schedules beyond that are sampled with VERIF_SEED.")
+
 CLAIMED = {
     "C01": ("4.C01", "Contract actions Read/Extract/Check fix the result of every checked retrieval as a function "
             "of the content state; TLC checks CheckedNeverWrong over all damage classes x entry points, and validates "
@@ -67,14 +76,30 @@ CLAIMED = {
     "C20": ("4.C20", "Totality: every contract action yields Ok or Err; the trace specifications have no action with a panic, "
             "hang or dead-process outcome, so TLC rejects any trace containing one; every call of a cross-section of all "
             "programs plus hostile directory states runs under catch_unwind and a 30 s watchdog."),
+    "C03": ("4.C03", "ContentAtomic is evaluated by TLC (TraceFS.tla) on the directory projection after EVERY visible system "
+            "call of every write variant and after a kill before every call / a data write torn at every (small) or "
+            "sampled (large) length, on three flavours; the step rule StoreStep allows only complete data to appear "
+            "under an address; short writes completed by the caller are included."),
+    "C04": ("4.C04", "IndexFormat.tla: TornAtomic (a torn append changes no lookup, the next append is effective) checked "
+            "exhaustively; on the real library every kill point and EVERY byte length of the index append of first "
+            "writes, overwrites, removals with multi-byte UTF-8 is exercised under the lock-step tracer, TLC checks "
+            "CrashAtomic / RecordsResolvable on the post-crash projection and validates a continuation history against the contract."),
+    "C07": ("4.C07", "Processes interleaved at system-call granularity by the ptrace lock-step tracer; after every call TLC "
+            "checks ContentAtomic, NoPartialRecord and the append-only / complete-publication step rules; for every run "
+            "TLC searches a sequential order of the operations that reproduces all results and the final state using the "
+            "contract's own actions (SerialAPI.tla)."),
+    "C13": ("4.C13", "Every visible system call of every operation is failed with every applicable errno (and writes cut "
+            "short then failed; pairs in thorough) by the tracer; TLC checks the step rule that a failed call changes "
+            "nothing, ContentAtomic / RecordsResolvable on every projection, and at the end Truthful (error or truthful "
+            "success), OthersUntouched, CrashAtomic; the retry without fault is validated against the contract."),
+    "C15": ("4.C15", "The tracer reports every mutating path-taking call outside the watched roots and classifies every call "
+            "inside; TLC (TraceFS.tla) rejects any outside mutation, any mutating call or state change by a read-only "
+            "operation, any touched area other than tmp / index-v5 / content-v2 / destination; TraceLayout.tla checks that "
+            "touched index/content paths are prefixes of the hashlib-derived bucket / content path; confusable keys "
+            "validated as independent entries by TraceAPI."),
 }
 
 NOT_YET = {
-    "C03": "system-call level check (lock-step tracer + CacacheFS.tla) not built yet",
-    "C04": "system-call level check (lock-step tracer + CacacheFS.tla) not built yet",
-    "C07": "system-call level check (lock-step tracer + CacacheFS.tla) not built yet",
-    "C13": "system-call level check (lock-step tracer + CacacheFS.tla) not built yet",
-    "C15": "system-call level check (lock-step tracer) not built yet",
 }
 
 
@@ -91,10 +116,10 @@ def main():
             "thorough_cmd": "./check %s --tier thorough" % pid,
             "evidence_file": "/verif/evidence/%s.json" % pid,
             "replay_cmd_template": "./check %s --replay {path}" % pid,
-            "engine": "tla-trace",
+            "engine": "tla-fs" if pid in FS else "tla-trace",
             "level_claimed": {"category": "model_checking", "text": text, "design_ref": "DESIGN.md section " + ref},
-            "level_note": TB_API,
-            "technique": API,
+            "level_note": TB_FS if pid in FS else TB_API,
+            "technique": FS_T if pid in FS else API,
         })
     m = {
         "version": 1,
@@ -104,7 +129,9 @@ def main():
                             "no source hook is needed: everything is observed through the public API, the directory and ptrace)",
                   "baseline_off_cmd": "cd /repo && cargo test --workspace --no-fail-fast --offline",
                   "source_commits": [], "add_only": True},
-        "engines": [{"name": "tla-trace", "path": "/verif/spec", "serves_properties": sorted(CLAIMED),
+        "engines": [{"name": "tla-fs", "path": "/verif/sysched", "serves_properties": sorted(FS),
+                     "kind_free_text": "ptrace lock-step tracer producing system-call level traces validated by TLC"},
+                    {"name": "tla-trace", "path": "/verif/spec", "serves_properties": sorted(set(CLAIMED) - FS),
                      "kind_free_text": "explicit TLA+ specification family checked with TLC; conformance by trace "
                                        "validation of recorded executions and replay of specification behaviours"}],
         "checks": checks,
